@@ -52,6 +52,29 @@ Proof. exact c20_greedy_rank_of_check. Qed.
 Theorem c20_sorted_dominance : forall l0 m v, sortedk (l0 ++ [m]) -> klt v m = true -> rank_le (l0 ++ [v]) (l0 ++ [m]).
 Proof. exact sorted_dominance. Qed.
 
+(* Histories of tasks on one space (optimizers outside the particle-swarm family): for every finite sequence of programs
+   each of which passes the C01 restart check, is not of the swarm family and passes the C20 check for the clause [g]
+   ([prog20_ok g p = true], evaluated by the driver on the regenerated programs), started on a space left by such a sequence
+   (or freshly built: C01_fresh_space_starts_a_history), in EVERY task: every record is truthful, and between two consecutive
+   records of the task no individual (g = GSlot) / no rank (g = GRank) gets worse.  The swarm family is excluded on purpose:
+   its start condition (every fitness above every objective value) fails in a continued space, and the unchanged code does
+   record an inherited personal-best fitness next to a re-created local position (known finding). *)
+From OV Require Import Analysis.FeasibleRel Analysis.FeasibleRelSound Analysis.TruthfulHist.
+
+Theorem C20_task_histories : forall (lbs ubs : list Z) (f : contents -> Z) (n_iter : nat) (INIT : list contents),
+  Forall2 (fun l h => kle l h = true) lbs ubs ->
+  forall (g : gmode) (ps : list stmt), Forall (fun p => prog20_ok g p = true) ps ->
+  forall x0 segs x', restart_ok lbs ubs INIT x0 -> tasks20 lbs ubs f n_iter INIT ps x0 segs x' ->
+    Forall (task20_ok f g) segs /\ restart_ok lbs ubs INIT x'.
+Proof. exact c20_tasks. Qed.
+
+Theorem C20_task_ok_means : forall f g (s : seg),
+  task20_ok f g s <->
+  ((forall y, In (EvDump y) (seg_evs s) -> Forall (fun a => afit a = f (apos a)) (pop y)) /\
+   (forall h1 y1 h2 y2 h3, seg_evs s = h1 ++ EvDump y1 :: h2 ++ EvDump y2 :: h3 -> dumps h2 = [] ->
+      match g with GSlot => slot_mono y1 y2 | GRank => rank_mono y1 y2 | GNone => True end)).
+Proof. intros. reflexivity. Qed.
+
 (* ---------------------------------------------------------------- witnesses *)
 Definition ag (p : Z) (i : nat) (ft : Z) : agent := {| apos := [[Some p]]; aid := i; afit := ft |}.
 (* two agents in the box [0,10] (one variable, one dimension), every fitness still the sentinel FLOAT_MAX *)
